@@ -169,6 +169,7 @@ type Sim struct {
 	Stats Stats
 
 	stepHooks  []func() error
+	releaseHooks []func(task, site string)
 	crashHooks map[string]func()
 	stopFns    []func()
 	violation  *Violation
@@ -647,8 +648,16 @@ func (s *Sim) release(t *Task, contended bool) {
 	}
 	s.record(contended || out.Fault != "", t.Name, kindNames[e.kind], e.site, e.opKind, e.opKey, out.Fault)
 	s.mu.Unlock()
+	for _, h := range s.releaseHooks {
+		h(t.Name, e.site) // the world is quiescent here: a harness can look at stub state "at the step this code point executes"
+	}
 	e.ch <- out
 }
+
+// OnRelease registers an observer called by the scheduler each time a parked
+// entry is released, with the task name and the entry's site (e.g.
+// "storage.PartitionLog.AppendBatch#lock0").
+func (s *Sim) OnRelease(f func(task, site string)) { s.releaseHooks = append(s.releaseHooks, f) }
 
 func (s *Sim) chooseLocked(n int) int { return s.choose(n) }
 
